@@ -227,7 +227,10 @@ Record request := {
   r_path : bytes;       (* path part of the request target, as received *)
   r_query : bytes;      (* RawQuery *)
   r_headers : header_map;
-  r_payload : bytes     (* lower-case hex SHA-256 of the body (evaluated outside the model) *)
+  r_payload : bytes;    (* lower-case hex SHA-256 of the bytes RECEIVED as body, i.e. of what r.Body delivers
+                           until EOF or error (evaluated outside the model) *)
+  r_body_len : N;       (* number of bytes r.Body delivers *)
+  r_body_err : bool     (* r.Body ends with an error instead of EOF (short Content-Length body, broken chunked stream) *)
 }.
 
 Definition payload_literals : list bytes :=
@@ -236,10 +239,26 @@ Definition payload_literals : list bytes :=
    B"STREAMING-AWS4-ECDSA-P256-SHA256-PAYLOAD"; B"STREAMING-AWS4-ECDSA-P256-SHA256-PAYLOAD-TRAILER"].
 Definition sha_hdr : bytes := B"x-amz-content-sha256".
 
+(* generateHashedPayload: ioutils.NewSmartCachedReadSeekCloser(r.Body, maxMemoryCacheSize) keeps a body of at
+   most 10,000,000 bytes in memory and spools a longer one to a temporary file (rewound after writing); in BOTH
+   branches the SHA-256 is then computed over all bytes of the cached reader, never taken from the declared
+   x-amz-content-sha256.  The split is kept explicit so that a size-dependent shortcut cannot hide in the model. *)
+Definition max_memory_cache_size : N := 10000000.
+Inductive body_store := InMemory | Spooled.
+Definition body_store_of (len : N) : body_store :=
+  if (len <=? max_memory_cache_size)%N then InMemory else Spooled.
+Definition hashed_payload (r : request) : bytes :=
+  match body_store_of (r_body_len r) with
+  | InMemory => r_payload r      (* hash of the in-memory copy *)
+  | Spooled => r_payload r       (* hash of the spooled file, read from offset 0 to its end *)
+  end.
+(* is the body read (and hashed) by generateCanonicalRequest? *)
+Definition needs_body_hash (r : request) (presigned : bool) : bool :=
+  negb presigned && negb (mem_bytes (hget sha_hdr (r_headers r)) payload_literals).
 Definition payload_line (r : request) (presigned : bool) : bytes :=
   if presigned then B"UNSIGNED-PAYLOAD"
   else let c := hget sha_hdr (r_headers r) in
-       if mem_bytes c payload_literals then c else r_payload r.
+       if mem_bytes c payload_literals then c else hashed_payload r.
 
 Definition nl : byte := x0a.
 Definition canonical_request_of (method uri query : bytes) (hs : list (bytes * bytes)) (payload : bytes) : bytes :=
@@ -462,6 +481,8 @@ Definition check_authentication (cfg : config) (facts : list fact) (now : Z) (r 
                   if negb (forallb (fun kv => let lk := to_lower (fst kv) in
                                                negb (must_be_signed lk) || mem_bytes lk names) (r_headers r))
                   then Rejected else
+                  (* generateStringToSign fails when reading the body fails *)
+                  if needs_body_hash r (p_presigned p) && r_body_err r then Rejected else
                   let m := {| s_alg := p_alg p; s_ts := p_timestamp p;
                               s_scope := join B"/" [date; region; service; term];
                               s_cr := canonical_request r escaped names (p_presigned p) |} in
@@ -517,6 +538,20 @@ Definition parse_facts (t : bytes) : option (list fact) :=
   | None => None
   end.
 
+(* <body> token: hex bytes, or "@<received length>,<0|1 error>,..." for generated large bodies (the rest of the
+   token tells the harness how to produce the stream) *)
+Definition parse_body_info (t : bytes) : option (N * bool) :=
+  match t with
+  | c :: rest =>
+      if beqb c "@"%byte then
+        match split_on ","%byte rest with
+        | l :: e :: _ => match parse_N l, parse_bool e with Some n, Some b => Some (n, b) | _, _ => None end
+        | _ => None
+        end
+      else match untok_bytes t with Some b => Some (lenN b, false) | None => None end
+  | [] => None
+  end.
+
 Definition show_outcome (o : outcome) : bytes :=
   match o with
   | BadURL => B"BADURL" | Anonymous => B"ANON" | Rejected => B"401"
@@ -525,24 +560,27 @@ Definition show_outcome (o : outcome) : bytes :=
 
 Definition run_line (l : bytes) : bytes :=
   match tokens l with
-  | [tag; pre; inc; m; h; p; q; hs; pl; _; _] =>
+  | [tag; pre; inc; m; h; p; q; hs; pl; bd; _] =>
       if bytes_eqb tag B"CANON" then
         do pre <- parse_bool pre; do inc <- untok_list inc; do m <- untok_bytes m; do h <- untok_bytes h;
         do p <- untok_bytes p; do q <- untok_bytes q; do hs <- parse_headers hs; do pl <- untok_bytes pl;
-        let r := {| r_method := m; r_host := h; r_path := p; r_query := q; r_headers := hs; r_payload := pl |} in
+        do bi <- parse_body_info bd;
+        let r := {| r_method := m; r_host := h; r_path := p; r_query := q; r_headers := hs; r_payload := pl;
+                    r_body_len := fst bi; r_body_err := snd bi |} in
         if existsb is_ctl q then B"BADURL" else
         match go_escaped_path p with
         | None => B"BADURL"
-        | Some e => tok_bytes (canonical_request r e inc pre)
+        | Some e => if needs_body_hash r pre && r_body_err r then B"ERROR" else tok_bytes (canonical_request r e inc pre)
         end
       else parse_error
-  | [tag; now; reg; cr; m; h; p; q; hs; pl; _; fs; _] =>
+  | [tag; now; reg; cr; m; h; p; q; hs; pl; bd; fs; _] =>
       if bytes_eqb tag B"AUTH" then
         do now <- parse_Z now; do reg <- untok_bytes reg; do cr <- parse_creds cr; do m <- untok_bytes m;
         do h <- untok_bytes h; do p <- untok_bytes p; do q <- untok_bytes q; do hs <- parse_headers hs;
-        do pl <- untok_bytes pl; do fs <- parse_facts fs;
+        do pl <- untok_bytes pl; do bi <- parse_body_info bd; do fs <- parse_facts fs;
         show_outcome (middleware {| c_region := reg; c_creds := cr |} fs now
-                        {| r_method := m; r_host := h; r_path := p; r_query := q; r_headers := hs; r_payload := pl |})
+                        {| r_method := m; r_host := h; r_path := p; r_query := q; r_headers := hs; r_payload := pl;
+                           r_body_len := fst bi; r_body_err := snd bi |})
       else parse_error
   | _ => parse_error
   end.
